@@ -374,9 +374,9 @@ pub fn run_pool_level(ctx: Ctx) -> Report {
 pub fn meta() -> CheckMeta {
     CheckMeta {
         level: "exploration",
-        rule: "pool level: all operation sequences of length <= 4 over {add, get, external death, advance 2 s, tick, return} x 4 configurations (exhaustive-short) plus random sequences of 2-24 operations over {add, get, k concurrent gets, k gets racing a reaper pass, external death, clock advance, manual tick, return-to-pool}, half of them with random forced yields at the scheduling points inside Session::close() (so that a reaper pass spans several polls while it holds the pool lock), with check_interval in {1,2,5} s and idle_timeout / min_idle in {0,1,2,5}, on a real SessionPool holding real client Sessions (MemPipes) under virtual time; after every step the property's rules are applied: get never returns a closed / non-idle / duplicate session and never comes back empty while an open idle session exists; a reaper pass (periodic task or manual) never closes an in-use session, never closes an idle session younger than the timeout, never leaves fewer than min(min_idle, before) open idle sessions; after a quiet idle_timeout + check_interval no surplus expired session is still open. Client level (real Client + Server over loopback TLS, 150-400 ms intervals): sessions carrying a live stream must never appear in a PoolReap event. distinct_nontrivial = distinct (configuration, operation sequence). Client level through the front-ends: SOCKS5 and HTTP CONNECT requests one direction of which has ended (application half-closed and the reply running, or target half-closed and the upload running) with 8 pieces 200 ms apart, idle_timeout 300 ms / check_interval 150 ms, min_idle 0-2 and two older idle sessions: every byte must arrive in both directions. 8% of the random pool cases use the largest idle timeout there is (never expire): nothing idle may ever be closed by housekeeping.".into(),
+        rule: "pool level: all operation sequences of length <= 4 over {add, get, external death, advance 2 s, tick, return} x 4 configurations (exhaustive-short) plus random sequences of 2-24 operations over {add, get, k concurrent gets, k gets racing a reaper pass, external death, clock advance, manual tick, return-to-pool}, half of them with random forced yields at the scheduling points inside Session::close() (so that a reaper pass spans several polls while it holds the pool lock), with check_interval in {1,2,5} s and idle_timeout / min_idle in {0,1,2,5}, on a real SessionPool holding real client Sessions (MemPipes) under virtual time; after every step the property's rules are applied: get never returns a closed / non-idle / duplicate session and never comes back empty while an open idle session exists; a reaper pass (periodic task or manual) never closes an in-use session, never closes an idle session younger than the timeout, never leaves fewer than min(min_idle, before) open idle sessions; after a quiet idle_timeout + check_interval no surplus expired session is still open. Client level (real Client + Server over loopback TLS, 150-400 ms intervals): sessions carrying a live stream must never appear in a PoolReap event. distinct_nontrivial = distinct (configuration, operation sequence). Client level through the front-ends: SOCKS5 and HTTP CONNECT requests one direction of which has ended (application half-closed and the reply running, or target half-closed and the upload running) with 8 pieces 200 ms apart, idle_timeout 300 ms / check_interval 150 ms, min_idle 0-2 and two older idle sessions: every byte must arrive in both directions. 8% of the random pool cases use the largest idle timeout there is (never expire): nothing idle may ever be closed by housekeeping. Fresh process (sub-process per case): the first 2-8 overlapping requests a process ever makes, on an empty pool; everything is given back; as many overlapping requests again must need no new connection, and after idle_timeout (1.2 s) plus 15 reaper ticks with min_idle 0 no TLS connection may remain open.".into(),
         assumptions: vec!["'eventually' is decided as: within idle_timeout + check_interval + 1 s of virtual quiet time".into(), "client-level verdicts are logical (PoolReap events joined with the harness' table of live streams), not timing based".into()],
-        floors: vec![("client_level_configurations", 3), ("live_streams_watched", 5), ("gets", 500), ("gets_racing_a_reaper_pass", 200), ("sessions_handed_out", 200), ("reaper_closes_observed", 100), ("manual_ticks", 100), ("quiet_periods", 500), ("half_closed_live_streams_watched", 6)],
+        floors: vec![("client_level_configurations", 3), ("live_streams_watched", 5), ("gets", 500), ("gets_racing_a_reaper_pass", 200), ("sessions_handed_out", 200), ("reaper_closes_observed", 100), ("manual_ticks", 100), ("quiet_periods", 500), ("half_closed_live_streams_watched", 6), ("fresh_process_bursts", 2)],
         exhaustive: false,
     }
 }
